@@ -307,7 +307,9 @@ def run_sharded(cmd, scripts, shards=None, timeout=1200, env=None):
     timeout = max(timeout, 600 + 21 * max(len(p) for p in parts))
     procs = []
     e = dict(os.environ)
-    e.setdefault('ASAN_OPTIONS', 'detect_leaks=1:allocator_may_return_null=1:max_allocation_size_mb=2048')
+    # a small quarantine: the harness parent lives for hundreds of thousands of scripts and everything it frees would otherwise sit in
+    # ASan's 256 MB quarantine, which every forked child then inherits (page tables) and scans (leak check)
+    e.setdefault('ASAN_OPTIONS', 'detect_leaks=1:allocator_may_return_null=1:max_allocation_size_mb=2048:quarantine_size_mb=8:thread_local_quarantine_size_kb=64')
     e.setdefault('UBSAN_OPTIONS', 'print_stacktrace=0')
     if env:
         e.update(env)
